@@ -97,7 +97,10 @@ pub fn cases() -> Vec<Case> {
             for hmac_mc in [false, true] {
                 for verified in [false, true] {
                     let s2 = (i % 7 == 0).then(|| hex(&salts[(i + 1) % salts.len()]));
-                    v.push(Case { op: "make-then-get".into(), hmac, hmac_mc, prf: 1, verified, mode: Mode::Default, counter: true, id_len: None, salt: Some(hex(s)), salt2: s2 });
+                    v.push(Case { op: "make-then-get".into(), hmac, hmac_mc, prf: 1, verified, mode: Mode::Default, counter: true, id_len: None, salt: Some(hex(s)), salt2: s2.clone() });
+                    if hmac == 2 {
+                        v.push(Case { op: "client-make-then-get".into(), hmac, hmac_mc, prf: 1, verified, mode: Mode::Default, counter: true, id_len: None, salt: Some(hex(s)), salt2: s2 });
+                    }
                 }
             }
         }
@@ -231,6 +234,24 @@ fn outputs(c: &Case, store: &Shared<RefStore>) -> Result<Vec<(String, Vec<u8>)>,
             match block_on(auth.get_assertion(ga_request("fresh.example", None, false, true, c.verified, false, Some(gext)))) {
                 Ok(r) => push("get_assertion::Response", format!("{r:?}"), format!("{r:#?}"), vec![("cbor", cbor(&r)), ("auth-data", r.auth_data.to_vec()), ("signature", r.signature.to_vec())]),
                 Err(e) => push("get:StatusCode", format!("{e:?}"), format!("{e:#?}"), vec![]),
+            }
+        }
+        "client-make-then-get" => {
+            // the same through the client, salts given as pre-hashed PRF inputs
+            let mut client = passkey_client::Client::new(mk_auth(store.clone(), uv.clone(), &cfg));
+            let first = unhex32(c.salt.as_deref().unwrap_or(""));
+            let mk_ext = || Some(webauthn::AuthenticationExtensionsClientInputs { cred_props: None, prf: None, prf_already_hashed: Some(PrfIn { eval: Some(PrfVals { first: first.to_vec().into(), second: c.salt2.as_deref().map(|s| unhex32(s).to_vec().into()) }), eval_by_credential: None }) });
+            let sel = Some(webauthn::AuthenticatorSelectionCriteria { authenticator_attachment: None, resident_key: None, require_resident_key: true, user_verification: uvr });
+            match register(&mut client, Org::SubDomain, Mode::Default, creation_options(Reg { selection: sel, extensions: mk_ext(), user_id: vec![6], ..Default::default() })).unwrap_or_else(|p| panic!("{p}")) {
+                Ok(cr) => {
+                    let id = cr.raw_id.to_vec();
+                    push("CreatedPublicKeyCredential", format!("{cr:?}"), format!("{cr:#?}"), vec![("json", serde_json::to_vec(&cr).unwrap_or_default())]);
+                    match authenticate(&mut client, Org::SubDomain, Mode::Default, request_options(Auth { uv: uvr, extensions: mk_ext(), allow: Some(vec![id]), ..Default::default() })).unwrap_or_else(|p| panic!("{p}")) {
+                        Ok(cr) => push("AuthenticatedPublicKeyCredential", format!("{cr:?}"), format!("{cr:#?}"), vec![("json", serde_json::to_vec(&cr).unwrap_or_default())]),
+                        Err(e) => push("get:WebauthnError", format!("{e:?}"), format!("{e:#?}"), vec![]),
+                    }
+                }
+                Err(e) => push("WebauthnError", format!("{e:?}"), format!("{e:#?}"), vec![]),
             }
         }
         "u2f-register" => {
@@ -376,7 +397,7 @@ pub fn run(ctx: &Ctx) -> Result<Run, String> {
     }
     let mut run = Run::from_stats(
         "exploration",
-        "product of operation {client register/authenticate, CTAP2 makeCredential/getAssertion, U2F register/authenticate, getInfo, error paths} x hmac-secret configuration(3) x evaluation at creation x PRF request {none, one, two inputs} x user verified x client-data mode x counter x configured credential-id length {16, 32, 48, 64} for registrations; after each ceremony every secret in the store (private scalars, both PRF secrets of every credential, new ones included) is searched in every returned value's Debug / pretty Debug / JSON / CBOR / raw encodings and in the Debug of each stored Passkey, as raw bytes, hex (both cases), decimal list, base64 and base64url in all three bit alignments. Non-trivial = distinct ceremony that returned a success value",
+        "(a) product of operation {client register/authenticate, CTAP2 makeCredential/getAssertion, U2F register/authenticate, getInfo, error paths} x hmac-secret configuration(3) x evaluation at creation x PRF request {none, one, two inputs} x user verified x client-data mode x counter x configured credential-id length {16, 32, 48, 64} for registrations; (b) a credential created by the library itself (CTAP2 level, and through the client with pre-hashed PRF inputs) asserted with every salt of the constants dictionary (each string literal of the library sources as SHA-256, zero-padded, and under the client's salt derivation; every 7th case with a second salt) x hmac-secret configuration x evaluation at creation x user verified; after each ceremony every secret in the store (private scalars, both PRF secrets of every credential, new ones included) is searched in every returned value's Debug / pretty Debug / JSON / CBOR / raw encodings and in the Debug of each stored Passkey, as raw bytes, hex (both cases), decimal list, base64 and base64url in all three bit alignments. Non-trivial = distinct ceremony that returned a success value",
         true,
         stats,
     );
